@@ -40,6 +40,7 @@ func (j *RemoveUnusedImportApp) Analysis() []models2.JFullIdentifier {
 		context := parser.CompilationUnit()
 
 		node := models2.NewJFullIdentifier()
+		node.FilePath = currentFile
 		listener := new(base2.JavaRefactorListener)
 		listener.InitNode(node)
 
@@ -55,7 +56,7 @@ func (j *RemoveUnusedImportApp) Refactoring(resultNodes []models2.JFullIdentifie
 	for _, node := range resultNodes {
 		if node.Name != "" {
 			errorLines := BuildErrorLines(node)
-			removeImportByLines(currentFile, errorLines)
+			removeImportByLines(node.FilePath, errorLines)
 		}
 	}
 }
